@@ -133,6 +133,84 @@ class _RcritWatch:
                 return
 
 
+class _RampWatch:
+    """Non-isothermal variant: the binary model keeps its interfacial-composition table until the temperature has
+    drifted by more than constraints.maxTempChange, so the growth sign is judged against the range of critical radii
+    over temperatures within that documented drift of the current one."""
+
+    def __init__(self, sc, out, therm):
+        self.sc, self.out, self.therm = sc, out, therm
+        self.both_sides = 0
+        self.cooled = 0
+        self.done = False
+        self.Tmax = None
+
+    def __call__(self, model, snap):
+        if self.done:
+            return
+        pd = model.pData
+        n = pd.n
+        T = float(pd.temperature[n])
+        self.Tmax = T if self.Tmax is None else max(self.Tmax, T)
+        dTmax = float(model.constraints.maxTempChange) * 1.001 + 1e-9
+        x = np.array(pd.composition[n], dtype=float)
+        for p, ph in enumerate(self.sc["phases"]):
+            dG = pd.drivingForce[n, p]
+            Rc = pd.Rcrit[n, p]
+            if not (dG > 0) or not (Rc > 0):
+                continue
+            Rmin = model.precipitateParameters[p].Rmin
+            if Rc <= Rmin * (1 + 1e-9):
+                continue
+            b = np.asarray(model.PBM[p].PSDbounds, dtype=float)
+            g = np.asarray(model.growth[p], dtype=float)
+            if len(g) != len(b) or not np.all(np.isfinite(g)):
+                continue
+            xq = x if self.sc["system"] == "toy_multi" else x[0]
+            d0 = float(self.therm.getDrivingForce(xq, T, precPhase=ph["name"])[0])
+            if not d0 > 0:
+                continue
+            rcs = [Rc]
+            for Tq in (T - dTmax, T + dTmax):
+                dq = float(self.therm.getDrivingForce(xq, Tq, precPhase=ph["name"])[0])
+                rcs.append(Rc * d0 / dq if dq > 0 else np.inf)
+            rlo, rhi = min(rcs), max(rcs)
+            dR = b[1] - b[0]
+            lo = int(model.RdrivingForceIndex[p]) + 1 if len(np.atleast_1d(model.RdrivingForceIndex)) > p else 0
+            idx = np.arange(len(b))
+            above = (b > rhi * (1 + 1e-6) + dR) & (idx >= lo) if np.isfinite(rhi) else np.zeros(len(b), dtype=bool)
+            below = (b < rlo * (1 - 1e-6) - dR) & (idx >= lo)
+            if np.any(above) and np.any(below):
+                self.both_sides += 1
+                if T < self.Tmax - 2 * dTmax:
+                    self.cooled += 1
+            wrong = (above & (g <= 0)) | (below & (g >= 0))
+            if np.any(wrong):
+                k = int(np.argmax(wrong))
+                self.out.fail("growth_sign_vs_critical_radius_nonisothermal", "step %d phase %d at T=%.3f K (highest so far %.3f): critical radius %.4e (range %.4e..%.4e over +-%.3g K) but the class boundary at %.4e %s"
+                              % (n, p, T, self.Tmax, Rc, rlo, rhi, dTmax, b[k], "shrinks" if g[k] <= 0 else "grows"), system=self.sc["system"])
+                self.done = True
+                return
+
+
+def check_model_ramp(sc):
+    out = Out()
+    therm = H.build_therm(sc)
+    w = _RampWatch(sc, out, therm)
+    so = sys.stdout
+    sys.stdout = io.StringIO()
+    try:
+        H.run(sc, callbacks=[w], therm=therm)
+    finally:
+        sys.stdout = so
+    Ts = sc["T"][2]
+    out.label(sc["system"], sc["iterator"], "net_cooling" if Ts[-1] < Ts[0] else "net_heating")
+    if w.cooled:
+        out.label("judged_after_cooling_more_than_2dT")
+    out.nt(w.both_sides >= 5)
+    return out
+
+
 def check_model(sc):
     out = Out()
     w = _RcritWatch(sc, out)
@@ -171,6 +249,29 @@ def _model_case(draw):
     return draw(scen.toy_binary_scenario(cap=250, max_phases=2, undersat=False, allow_profile=False))
 
 
+@st.composite
+def _ramp_case(draw):
+    if draw(st.integers(0, 3)) == 3:
+        sc = draw(scen.toy_multi_scenario(cap=200, allow_profile=False))
+    else:
+        sc = draw(scen.toy_binary_scenario(cap=250, max_phases=2, undersat=False, allow_profile=False, allow_shapes=False))
+    for p in sc["phases"]:
+        p.pop("strain", None)
+        p["shape"] = "sphere"
+    T0 = sc["T"][1]
+    total = sum(sc["durations"])
+    n = draw(st.integers(1, 3))
+    hrs, Ts = [0.0], [T0]
+    sign = draw(st.sampled_from([-1.0, -1.0, 1.0]))
+    for i in range(n):
+        hrs.append(hrs[-1] + total / 3600 / n)
+        Ts.append(float(np.clip(Ts[-1] + sign * draw(st.floats(2.0, 40.0)), 350.0, 1400.0)))
+        if draw(st.integers(0, 2)) == 2:
+            sign = -sign
+    sc["T"] = [draw(st.sampled_from(["array", "func"])), hrs, Ts]
+    return sc
+
+
 def pred_multi_strain(case, v):
     d = v.get("data", {})
     return d.get("system") == "toy_multi" and bool(d.get("strain"))
@@ -186,5 +287,8 @@ def clauses():
                     "oracle: dG(x_alpha(T,g),T) = g, x_alpha monotone in g, sentinel monotone, sign change at the planar solvus, dG increasing in x, four methods agree in sign, three in value (offset), curvature limit; non-trivial: >= 2 stable Gibbs-Thomson points"),
         Clause("model_rcrit", _model_case, check_model, quick=160, thorough=3000, shrink=False,
                rule="generator: (1 in 12: Al-Zr / Ni-Al-Cr on the shipped databases) toy binary (1-2 phases, all site types and shapes, constant strain energy) and toy ternary scenarios at constant temperature; observer after every step: boundaries beyond one class width above (below) the reported critical radius grow (shrink); non-trivial: >= 5 steps with judged boundaries on both sides"),
+        Clause("model_rcrit_ramp", _ramp_case, check_model_ramp, quick=96, thorough=2000, shrink=False,
+               rule="generator: toy binary (3 in 4) and toy ternary scenarios, spherical precipitates without strain energy, temperature ramps of 1-3 segments of 2-40 K each (2 in 3 start by cooling; direction may reverse); "
+                    "observer after every step: boundaries beyond one class width above (below) the largest (smallest) critical radius over temperatures within constraints.maxTempChange of the current one grow (shrink); non-trivial: >= 5 judged steps with boundaries on both sides"),
     ]
     return cl
